@@ -415,6 +415,10 @@ def run(ctx):
     run_c06d(ctx)
     rule_e(ctx, R)
     rule_f(ctx, R, sector, scan_site)
+    if ctx.cfg == "default":
+        from ..fixtures import detectors_alive
+        ctx.rule("C06-z", "positive example: a panic guarded by a coordinate's value is found in fixtures/")
+        detectors_alive(ctx, "C06-z", {"value-panic"})
 
 
 def rule_e(ctx, R):
